@@ -340,13 +340,20 @@ def lookupProfile (extra : List Bytes) (name : Bytes) : Option Entry :=
   else if extra.contains name then some .other
   else none
 
-def decodeClaimsTree (urlNorm : Bytes → Dec Bytes) (extra : List Bytes) (t : Cbor) : Dec Claims :=
+def decodeClaimsMap (urlNorm : Bytes → Dec Bytes) (extra : List Bytes) (t : Cbor) : Dec Claims :=
   (selectProfile t).bind fun name =>
   match lookupProfile extra name with
   | none => .err
   | some .other => .ood
   | some .p1 => unmarshalInto urlNorm (Claims.new .p1) t
   | some .p2 => unmarshalInto urlNorm (Claims.new .p2) t
+
+def decodeClaimsTree (urlNorm : Bytes → Dec Bytes) (extra : List Bytes) (t : Cbor) : Dec Claims :=
+  -- a claims-set is a CBOR map: whatever else the selector decode lets through (null,
+  -- undefined, tagged items) is rejected (fix d1614d8)
+  match t with
+  | .map _ => decodeClaimsMap urlNorm extra t
+  | _ => .err
 
 /-- `DecodeClaimsFromCBOR`: one well-formed item, nothing after it -/
 def decodeClaims (urlNorm : Bytes → Dec Bytes) (extra : List Bytes) (bs : Bytes) : Dec Claims :=
